@@ -159,6 +159,7 @@ def artifacts(parol, files, k=5, jobs=14, want_parser=False, per_grammar_timeout
         rc, o = sh(cmd, cwd=d, timeout=per_grammar_timeout)
         res["rc"] = rc
         res["out"] = o[-1500:]
+        res["resolved_conflicts"] = o.count("resolved by")
         for nm in ("u.par", "e.par", "parser.rs"):
             p = os.path.join(d, nm)
             res[nm.split(".")[0]] = p if os.path.exists(p) else None
